@@ -119,8 +119,8 @@ MUTANTS = [
     ("c20-scope-id-not-hashed", "C20", "_dns.py",
      "            self.address == other.address\n            and self.scope_id == other.scope_id\n", "            self.address == other.address\n"),
     ("c07-announce-once", "C07", "_core.py",
-     "        for i in range(_REGISTER_BROADCASTS):\n            if i != 0:\n                await asyncio.sleep(millis_to_seconds(interval))\n            self.async_send(self.generate_service_broadcast(info, ttl, broadcast_addresses))",
-     "        for i in range(1):\n            if i != 0:\n                await asyncio.sleep(millis_to_seconds(interval))\n            self.async_send(self.generate_service_broadcast(info, ttl, broadcast_addresses))"),
+     "        for i in range(_REGISTER_BROADCASTS):\n            if i != 0:\n                await asyncio.sleep(millis_to_seconds(interval))\n",
+     "        for i in range(1):\n            if i != 0:\n                await asyncio.sleep(millis_to_seconds(interval))\n"),
     ("c07-startup-single-query", "C07", "_services/browser.py", "STARTUP_QUERIES = 4", "STARTUP_QUERIES = 1"),
 ]
 
